@@ -457,6 +457,7 @@ func (e *Engine) specCallPure(env *SpecEnv, x *spec.Call) (Val, error) {
 			rs = smt.V
 			if t, err := e.ResolveType(r); err == nil {
 				rt = t
+				rs = SortOf(t)
 			}
 		}
 	}
